@@ -673,3 +673,854 @@ Definition zero_typed_witness : bytes := [91; 36; 84; 35; 76; 127; 255; 255; 255
 Theorem C03_ubj_zero_typed_refuted : exists b, all_bytes b = true /\ urun_parse None b = OutOfFuel.
 Proof. exists zero_typed_witness. split; vm_compute; reflexivity. Qed.
 Print Assumptions C03_ubj_zero_typed_refuted.
+
+(* ================================================================== *)
+(* Stage 3: totality                                                   *)
+(* ================================================================== *)
+
+Ltac dp p := destruct p as [?c ?k ?vc ?vs ?lc ?ls ?bf ?mk ?vt ?er].
+
+Lemma uset_buf_same : forall p, uset_buf p (up_buf p) = p.
+Proof. intro p; dp p; reflexivity. Qed.
+Lemma uset_buf_nil : forall p, up_buf p = [] -> uset_buf p [] = p.
+Proof. intros p H. rewrite <- H. apply uset_buf_same. Qed.
+
+Definition suffix_of (b rest : bytes) : Prop := exists pre, b = pre ++ rest.
+
+Lemma ucollect_strong : forall p b c, 0 < c -> zlen (up_buf p) < c ->
+  (exists pre rest tmp, ucollect p b c = UC (uset_buf p []) rest (Some tmp) /\ b = pre ++ rest /\ pre <> []) \/
+  (ucollect p b c = UC (uset_buf p (up_buf p ++ b)) [] None /\ zlen (up_buf p ++ b) < c).
+Proof.
+  intros p b c Hc Hbuf. unfold ucollect.
+  pose proof (zlen_nonneg _ b) as Hbl.
+  assert (Hsplit : forall k, 0 < k -> k <= zlen b -> b = uzfirstn k b ++ uzskipn k b /\ uzfirstn k b <> [] /\ zlen (uzfirstn k b) = k).
+  { intros k Hk Hk2. unfold uzfirstn, uzskipn. split; [symmetry; apply firstn_skipn|].
+    assert (Hl : length (firstn (Z.to_nat k) b) = Z.to_nat k) by (apply firstn_length_le; unfold zlen in Hk2; lia).
+    split; [|unfold zlen; lia]. intro E. rewrite E in Hl. cbn [length] in Hl. lia. }
+  destruct (zlen (up_buf p) >? 0) eqn:E0.
+  - destruct (c - zlen (up_buf p) >? 0) eqn:E1; [|lia].
+    destruct (c - zlen (up_buf p) >? zlen b) eqn:E2.
+    + right. split; [reflexivity|]. rewrite zlen_app. lia.
+    + destruct (Hsplit (c - zlen (up_buf p))) as (S1 & S2 & S3); [lia|lia|].
+      cbn [up_buf uset_buf]. 
+      assert (Hz : zlen (up_buf p ++ uzfirstn (c - zlen (up_buf p)) b) = c) by (rewrite zlen_app, S3; lia).
+      rewrite Hz. replace (c >=? c) with true by lia. replace (c <? 0) with false by lia. rewrite Z.eqb_refl.
+      left. eexists _, _, _. split; [|split; [exact S1|exact S2]]. destruct p; reflexivity.
+  - assert (Hnil : up_buf p = []). { apply zlen_nil_iff. pose proof (zlen_nonneg _ (up_buf p)). lia. }
+    replace (c <? 0) with false by lia.
+    destruct (zlen b >=? c) eqn:E1.
+    + destruct (Hsplit c) as (S1 & S2 & S3); [lia|lia|].
+      left. eexists _, _, _. split; [|split; [exact S1|exact S2]]. rewrite (uset_buf_nil p Hnil). reflexivity.
+    + right. split; [reflexivity|]. rewrite zlen_app. lia.
+Qed.
+
+Definition lenbm (mk : Z) (buf : bytes) : bool :=
+  ((mk =? 0) || (mk =? mi) || (mk =? mU)) && (zlen buf =? 0)
+  || (mk =? mI) && (zlen buf <? 2) || (mk =? ml) && (zlen buf <? 4) || (mk =? mL) && (zlen buf <? 8).
+
+Definition len_out3 (p : uparser) (b : bytes) (cont : ustate) (p1 : uparser) (rest : bytes) : Prop :=
+  (exists buf m, p1 = uset_marker (uset_buf p buf) m /\ rest = [] /\ lenbm m buf = true /\ m <> 0) \/
+  (exists L pre, 0 <= L /\ p1 = ul_push (uset_cur (uset_marker (uset_buf p []) 0) cont) L /\ b = pre ++ rest /\ pre <> []).
+
+Lemma ustep_len_strong : forall p b cont, b <> [] -> lenbm (up_marker p) (up_buf p) = true ->
+  exists p1 rest err, ustep_len p b cont = UL p1 rest err /\ (unil err = true -> len_out3 p b cont p1 rest).
+Proof.
+  intros p b cont Hb Hbm.
+  assert (Hfin : forall p0 pre rest L, p0 = uset_marker (uset_buf p []) (up_marker p0) -> b = pre ++ rest -> pre <> [] ->
+     exists p1 rest1 err,
+      (if L <? 0 then UL p0 [] ueNegativeLen else UL (ul_push (uset_cur (uset_marker p0 0) cont) L) rest unilE) = UL p1 rest1 err
+      /\ (unil err = true -> len_out3 p b cont p1 rest1)).
+  { intros p0 pre rest L Hp0 Hpre Hne. destruct (L <? 0) eqn:E.
+    - eexists _, _, _. split; [reflexivity|]. intro H; discriminate H.
+    - eexists _, _, _. split; [reflexivity|]. intros _. right. exists L, pre. split; [lia|]. split; [|split; assumption].
+      rewrite Hp0. destruct p; reflexivity. }
+  assert (Hgo : forall p0 pre0 b0, p0 = uset_marker p (up_marker p0) -> b = pre0 ++ b0 -> b0 <> [] ->
+     lenbm (up_marker p0) (up_buf p) = true -> (up_marker p0 =? 0) = false ->
+     exists p1 rest err,
+     (let p := p0 in
+      let m := up_marker p in
+      let finish (p : uparser) (rest : bytes) (L : Z) : ulres :=
+        if L <? 0 then UL p [] ueNegativeLen
+        else UL (ul_push (uset_cur (uset_marker p 0) cont) L) rest unilE in
+      let viacollect (k : Z) : ulres :=
+        match ucollect p b0 k with
+        | UCC => ULC 2
+        | UC p1 rest None => UL p1 rest unilE
+        | UC p1 rest (Some tmp) => finish p1 rest (wraps (8 * k) (be_dec tmp))
+        end in
+      if m =? mi then match b0 with [] => ULC 3 | x :: r => finish p r (wraps 8 x) end
+      else if m =? mU then match b0 with [] => ULC 4 | x :: r => finish p r x end
+      else if m =? mI then viacollect 2
+      else if m =? ml then viacollect 4
+      else if m =? mL then viacollect 8
+      else UL p [] ueUnknownMarker) = UL p1 rest err /\ (unil err = true -> len_out3 p b cont p1 rest)).
+  { intros p0 pre0 b0 Hp0 Hpre0 Hb0 Hlb Hm0. cbv zeta.
+    assert (Hp0buf : up_buf p0 = up_buf p) by (rewrite Hp0; destruct p; reflexivity).
+    assert (Hvc : forall k, 0 < k -> zlen (up_buf p) < k -> lenbm (up_marker p0) (up_buf p ++ b0) = true \/ k <= zlen (up_buf p ++ b0) -> exists p1 rest err,
+      match ucollect p0 b0 k with
+        | UCC => ULC 2
+        | UC p1 rest None => UL p1 rest unilE
+        | UC p1 rest (Some tmp) =>
+           if wraps (8 * k) (be_dec tmp) <? 0 then UL p1 [] ueNegativeLen
+           else UL (ul_push (uset_cur (uset_marker p1 0) cont) (wraps (8 * k) (be_dec tmp))) rest unilE
+        end = UL p1 rest err /\ (unil err = true -> len_out3 p b cont p1 rest)).
+    { intros k Hk Hbk Hlb2.
+      destruct (ucollect_strong p0 b0 k Hk) as [(pre & rest & tmp & Hc & Hpre & Hne)|(Hc & Hlt)]; [rewrite Hp0buf; exact Hbk| |].
+      - rewrite Hc. apply (Hfin _ (pre0 ++ pre) rest).
+        + rewrite Hp0. destruct p; reflexivity.
+        + rewrite Hpre0, Hpre, app_assoc. reflexivity.
+        + intro E. apply app_eq_nil in E. destruct E as [_ E]. contradiction.
+      - rewrite Hc. eexists _, _, _. split; [reflexivity|]. intros _. left. exists (up_buf p ++ b0), (up_marker p0).
+        split; [rewrite Hp0buf, Hp0; destruct p; reflexivity|]. split; [reflexivity|].
+        split; [|intro E; rewrite E in Hm0; discriminate Hm0].
+        rewrite Hp0buf in Hlt. destruct Hlb2 as [Hlb2|Hlb2]; [exact Hlb2|lia]. }
+    unfold lenbm in Hlb.
+    destruct (up_marker p0 =? mi) eqn:Emi.
+    { destruct b0 as [|x r]; [congruence|]. apply (Hfin _ (pre0 ++ [x]) r).
+      - rewrite Hp0 at 1. assert (Hnil : up_buf p = []) by (apply zlen_nil_iff; unfold mi, mU, mI, ml, mL in *; lia).
+        rewrite (uset_buf_nil p Hnil). reflexivity.
+      - rewrite Hpre0, <- app_assoc. reflexivity.
+      - intro E. apply app_eq_nil in E. destruct E as [_ E]. discriminate E. }
+    destruct (up_marker p0 =? mU) eqn:EmU.
+    { destruct b0 as [|x r]; [congruence|]. apply (Hfin _ (pre0 ++ [x]) r).
+      - rewrite Hp0 at 1. assert (Hnil : up_buf p = []) by (apply zlen_nil_iff; unfold mi, mU, mI, ml, mL in *; lia).
+        rewrite (uset_buf_nil p Hnil). reflexivity.
+      - rewrite Hpre0, <- app_assoc. reflexivity.
+      - intro E. apply app_eq_nil in E. destruct E as [_ E]. discriminate E. }
+    pose proof (zlen_nonneg _ (up_buf p)) as Hnn.
+    destruct (up_marker p0 =? mI) eqn:EmI.
+    { apply Hvc; [lia|unfold mi, mU, mI, ml, mL in *; lia|].
+      destruct (zlen (up_buf p ++ b0) <? 2) eqn:E2; [left|right; lia]. unfold lenbm. rewrite EmI, E2.
+      cbn. rewrite !orb_true_r. reflexivity. }
+    destruct (up_marker p0 =? ml) eqn:Eml.
+    { apply Hvc; [lia|unfold mi, mU, mI, ml, mL in *; lia|].
+      destruct (zlen (up_buf p ++ b0) <? 4) eqn:E2; [left|right; lia]. unfold lenbm. rewrite Eml, E2.
+      cbn. rewrite !orb_true_r. reflexivity. }
+    destruct (up_marker p0 =? mL) eqn:EmL.
+    { apply Hvc; [lia|unfold mi, mU, mI, ml, mL in *; lia|].
+      destruct (zlen (up_buf p ++ b0) <? 8) eqn:E2; [left|right; lia]. unfold lenbm. rewrite EmL, E2.
+      cbn. rewrite !orb_true_r. reflexivity. }
+    eexists _, _, _. split; [reflexivity|]. intro H; discriminate H. }
+  unfold ustep_len.
+  destruct (up_marker p =? 0) eqn:Em.
+  - assert (Hbuf : up_buf p = []).
+    { apply zlen_nil_iff. unfold lenbm in Hbm. unfold mi, mU, mI, ml, mL in *. lia. }
+    destruct b as [|m r]; [congruence|].
+    destruct (negb ((m =? mi) || (m =? mU) || (m =? mI) || (m =? ml) || (m =? mL))) eqn:Emm.
+    { eexists _, _, _. split; [reflexivity|]. intro H; discriminate H. }
+    apply negb_false_iff in Emm.
+    assert (Hlm : lenbm m [] = true /\ m <> 0).
+    { unfold lenbm. unfold mi, mU, mI, ml, mL in *. change (zlen (@nil Z)) with 0. split; lia. }
+    destruct (zlen r =? 0) eqn:Er.
+    { eexists _, _, _. split; [reflexivity|]. intros _. left. exists [], m.
+      split; [rewrite (uset_buf_nil p Hbuf); reflexivity|]. split; [reflexivity|]. exact Hlm. }
+    apply (Hgo _ [m] r); [destruct p; reflexivity|reflexivity|intros ->; discriminate Er| |].
+    + cbn [up_marker uset_marker]. rewrite Hbuf. apply Hlm.
+    + cbn [up_marker uset_marker]. destruct Hlm as [_ Hlm]. apply Z.eqb_neq. exact Hlm.
+  - apply (Hgo p [] b); [destruct p; reflexivity|reflexivity|exact Hb|exact Hbm|exact Em].
+Qed.
+
+(* ---------- the extra invariant ---------- *)
+Fixpoint stk_ok (stk : list ustate) : bool :=
+  match stk with
+  | [] => false
+  | x :: r => match r with [] => u_t x =? 1 | _ :: _ => negb (u_t x =? 1) && stk_ok r end
+  end.
+Definition chain_f (cur : ustate) (stk : list ustate) : bool :=
+  if u_t cur =? 1 then match stk with [] => true | _ => false end
+  else negb (u_t cur =? 0) && stk_ok stk.
+
+Definition typed_states : list (Z * Z) :=
+  [(8,14);(8,15);(8,13);(8,16);(12,14);(12,15);(12,13);(12,17);(12,18);(12,16)].
+Definition Tz (st : ustate) : Z := if st_in st typed_states then 1 else 0.
+Fixpoint tcount (stk : list ustate) : Z := match stk with [] => 0 | x :: r => Tz x + tcount r end.
+Definition vdepth (vc : ustate) (vs : list ustate) : Z := if u_t vc =? 0 then 0 else 1 + zlen vs.
+Definition nonfail (st : ustate) : bool := negb (u_t st =? 0).
+Definition vbal_f (cur : ustate) (stk : list ustate) (vc : ustate) (vs : list ustate) : bool :=
+  forallb nonfail vs && (nonfail vc || (zlen vs =? 0)) && (Tz cur + tcount stk =? vdepth vc vs).
+
+Definition nzst (st : ustate) : bool := negb (is_zero_sized st).
+Definition nz_f (cur vc : ustate) (vs : list ustate) : bool := nzst cur && nzst vc && forallb nzst vs.
+
+Definition fixed_need (st : ustate) : Z :=
+  let s := u_s st in
+  if s =? 7 then 2 else if s =? 8 then 4 else if s =? 9 then 8 else if s =? 10 then 4
+  else if s =? 11 then 8 else if s =? 12 then 1 else 0.
+Definition lenreading (st : ustate) : bool :=
+  st_in st [(3,0);(4,0);(7,0);(8,15);(12,15);(10,0);(11,0);(11,17);(12,17)].
+Definition bm (st : ustate) (mk : Z) (buf : bytes) (lc : Z) : bool :=
+  if lenreading st then
+    lenbm mk buf && (if st_in st [(11,17);(12,17)] then (mk =? 0) || negb (lc =? 0) else true)
+  else (mk =? 0) &&
+       (if lenst st then (zlen buf =? 0) || (zlen buf <? lc)
+        else if u_t st =? 2 then (zlen buf =? 0) || (zlen buf <? fixed_need st)
+        else zlen buf =? 0).
+
+Definition ext3b (p : uparser) : bool :=
+  chain_f (up_cur p) (up_stack p) && vbal_f (up_cur p) (up_stack p) (up_vcur p) (up_vstack p) &&
+  nz_f (up_cur p) (up_vcur p) (up_vstack p) && bm (up_cur p) (up_marker p) (up_buf p) (up_lcur p).
+
+Lemma ext3_split : forall p, ext3b p = true ->
+  chain_f (up_cur p) (up_stack p) = true /\ vbal_f (up_cur p) (up_stack p) (up_vcur p) (up_vstack p) = true /\
+  nz_f (up_cur p) (up_vcur p) (up_vstack p) = true /\ bm (up_cur p) (up_marker p) (up_buf p) (up_lcur p) = true.
+Proof.
+  intros p H. unfold ext3b in H. apply andb_true_iff in H. destruct H as [H H4].
+  apply andb_true_iff in H. destruct H as [H H3]. apply andb_true_iff in H. destruct H as [H1 H2]. auto.
+Qed.
+Lemma ext3_join : forall p,
+  chain_f (up_cur p) (up_stack p) = true -> vbal_f (up_cur p) (up_stack p) (up_vcur p) (up_vstack p) = true ->
+  nz_f (up_cur p) (up_vcur p) (up_vstack p) = true -> bm (up_cur p) (up_marker p) (up_buf p) (up_lcur p) = true ->
+  ext3b p = true.
+Proof. intros p H1 H2 H3 H4. unfold ext3b. rewrite H1, H2, H3, H4. reflexivity. Qed.
+
+(* ---------- the potential ---------- *)
+Definition wt (st : ustate) : Z :=
+  if st_in st [(3,13);(4,13);(7,13);(7,16);(8,13);(8,16);(11,13);(11,17);(12,13);(12,17)] then 2
+  else if st_in st [(5,0);(9,0);(10,18);(11,18)] then 1
+  else if st_in st [(12,18)] then 4 else if st_in st [(12,16)] then 3 else 0.
+Definition vt (st : ustate) : Z := if st_in st [(7,16);(8,16);(11,17);(12,17)] then 1 else 0.
+Fixpoint sumv (stk : list ustate) : Z := match stk with [] => 0 | x :: r => vt x + sumv r end.
+Definition phi (p : uparser) (n : Z) : Z := 4 * n + sumv (up_stack p) + wt (up_cur p).
+
+Definition typed0 (st : ustate) : bool := st_in st [(8,0);(12,0)].
+
+Lemma wt_bounds : forall st, 0 <= wt st <= 4.
+Proof. intro st. unfold wt. repeat match goal with |- context[if ?c then _ else _] => destruct c end; lia. Qed.
+Lemma vt_bounds : forall st, 0 <= vt st <= 1.
+Proof. intro st. unfold vt. destruct (st_in st _); lia. Qed.
+Lemma sumv_bounds : forall stk, 0 <= sumv stk <= zlen stk.
+Proof.
+  induction stk as [|x r IH]; cbn [sumv]. { unfold zlen; cbn; lia. }
+  rewrite zlen_cons. pose proof (vt_bounds x). lia.
+Qed.
+
+Lemma bm_clean : forall st lc, bm st 0 [] lc = true.
+Proof.
+  intros st lc. unfold bm, lenbm. change (zlen (@nil Z)) with 0. cbn [Z.eqb andb orb Z.ltb Z.compare].
+  destruct (lenreading st); [destruct (st_in st _); reflexivity|].
+  destruct (lenst st); [reflexivity|]. destruct (u_t st =? 2); reflexivity.
+Qed.
+
+Lemma stack_state_facts : forall c, st_in c stack_states = true ->
+  wt c <= vt c + 1 /\ nzst c = true /\ nonfail c = true /\ typed0 c = false /\ Tz c <= 1 /\ 0 <= Tz c.
+Proof.
+  intros [t s] H. apply st_in_In in H. cbn in H.
+  repeat (destruct H as [H|H]; [injection H as <- <-; repeat split; try reflexivity; cbn; lia|]). contradiction.
+Qed.
+
+Lemma vstate_facts : forall c, st_in c vstates = true ->
+  0 <= wt c <= 1 /\ Tz c = 0 /\ typed0 c = false /\ (u_t c =? 1) = false.
+Proof.
+  intros [t s] H. apply st_in_In in H. cbn in H.
+  repeat (destruct H as [H|H]; [injection H as <- <-; repeat split; try reflexivity; cbn; lia|]). contradiction.
+Qed.
+
+Lemma tcount_nonneg : forall stk, 0 <= tcount stk.
+Proof. induction stk as [|x r IH]; cbn [tcount]; [lia|]. unfold Tz. destruct (st_in x typed_states); lia. Qed.
+
+Lemma stk_ok_cons : forall c r, stk_ok (c :: r) = true -> st_in c stack_states = true -> chain_f c r = true.
+Proof.
+  intros c r H Hc. destruct (stack_state_facts c Hc) as (_ & _ & Hnf & _).
+  unfold chain_f. cbn [stk_ok] in H. destruct r as [|c' r'].
+  - rewrite H. reflexivity.
+  - apply andb_true_iff in H. destruct H as [H1 H2]. apply negb_true_iff in H1. rewrite H1.
+    unfold nonfail in Hnf. rewrite Hnf, H2. reflexivity.
+Qed.
+
+Lemma ext3_upop_gen : forall p q, forallb (fun st => st_in st stack_states) (up_stack p) = true -> ext3b p = true -> (u_t (up_cur p) =? 1) = false ->
+  up_cur q = up_cur p -> up_stack q = up_stack p -> up_marker q = 0 -> up_buf q = [] ->
+  (Tz (up_cur p) = 0 /\ up_vcur q = up_vcur p /\ up_vstack q = up_vstack p \/
+   Tz (up_cur p) = 1 /\ up_vcur q = up_vcur (v_pop p) /\ up_vstack q = up_vstack (v_pop p)) ->
+  ext3b (u_pop q) = true /\ typed0 (up_cur (u_pop q)) = false /\
+  (forall n, phi (u_pop q) n <= 4 * n + sumv (up_stack p) + 1).
+Proof.
+  intros p q I2 He Hn Hc Hs Hm Hb Hv.
+  destruct (ext3_split _ He) as (E1 & E2 & E3 & E4).
+  dp p. dp q. cbn [up_cur up_stack up_vcur up_vstack up_lcur up_marker up_buf] in *. subst.
+  unfold chain_f in E1. rewrite Hn in E1. apply andb_true_iff in E1. destruct E1 as [E1a E1].
+  destruct k as [|c1 r]; [discriminate E1|].
+  cbn [forallb] in I2. apply andb_true_iff in I2. destruct I2 as [Ic Ir].
+  destruct (stack_state_facts c1 Ic) as (F1 & F2 & F3 & F4 & F5 & F6).
+  unfold u_pop. cbn [up_stack up_cur].
+  split; [|split; [exact F4|]].
+  2:{ intro n. unfold phi. cbn [up_stack up_cur sumv]. lia. }
+  apply ext3_join; cbn [up_cur up_stack up_vcur up_vstack up_lcur up_marker up_buf].
+  - apply stk_ok_cons; assumption.
+  - unfold vbal_f in *. cbn [tcount] in E2.
+    apply andb_true_iff in E2. destruct E2 as [E2 E2c]. apply andb_true_iff in E2. destruct E2 as [E2a E2b].
+    destruct Hv as [(T0 & -> & ->)|(T1 & -> & ->)].
+    + rewrite E2a, E2b. cbn [andb]. lia.
+    + unfold v_pop. cbn [up_vstack]. destruct vs as [|v vs']; cbn [up_vcur up_vstack forallb].
+      * unfold vdepth, nonfail in *. cbn [u_t mku]. change (tFail =? 0) with true. change (zlen (@nil ustate)) with 0 in *.
+        pose proof (tcount_nonneg r).
+        destruct (u_t vc =? 0); cbn [negb orb andb Z.eqb] in *; lia.
+      * cbn [forallb] in E2a. apply andb_true_iff in E2a. destruct E2a as [Ev Evs]. rewrite Ev, Evs. cbn [andb orb].
+        unfold vdepth, nonfail in *. rewrite zlen_cons in *. pose proof (zlen_nonneg _ vs').
+        apply negb_true_iff in Ev. rewrite Ev.
+        destruct (u_t vc =? 0); cbn [negb orb andb] in *; lia.
+  - unfold nz_f in *. apply andb_true_iff in E3. destruct E3 as [E3 E3c]. apply andb_true_iff in E3. destruct E3 as [E3a E3b].
+    rewrite F2. cbn [andb].
+    destruct Hv as [(T0 & -> & ->)|(T1 & -> & ->)].
+    + rewrite E3b, E3c. reflexivity.
+    + unfold v_pop. cbn [up_vstack]. destruct vs as [|v vs']; cbn [up_vcur up_vstack forallb].
+      * reflexivity.
+      * exact E3c.
+  - apply bm_clean.
+Qed.
+
+Definition pop_concl (p p' : uparser) : Prop :=
+  ext3b p' = true /\ typed0 (up_cur p') = false /\ (forall n, phi p' n <= 4 * n + sumv (up_stack p) + 1).
+
+Lemma ext3_upop : forall p, forallb (fun st => st_in st stack_states) (up_stack p) = true -> ext3b p = true -> (u_t (up_cur p) =? 1) = false ->
+  up_marker p = 0 -> up_buf p = [] -> Tz (up_cur p) = 0 -> pop_concl p (u_pop p).
+Proof. intros p Hi He Hn Hm Hb Ht. apply ext3_upop_gen; auto. Qed.
+
+Lemma ext3_upop_len : forall p, forallb (fun st => st_in st stack_states) (up_stack p) = true -> ext3b p = true -> (u_t (up_cur p) =? 1) = false ->
+  up_marker p = 0 -> up_buf p = [] -> Tz (up_cur p) = 0 -> pop_concl p (u_pop (ul_pop p)).
+Proof.
+  intros p Hi He Hn Hm Hb Ht. apply ext3_upop_gen; auto.
+  - apply ulpop_cur. - apply ulpop_stack.
+  - unfold ul_pop. destruct (up_lstack p); dp p; exact Hm.
+  - unfold ul_pop. destruct (up_lstack p); dp p; exact Hb.
+  - left. split; [exact Ht|]. split; [apply ulpop_vcur|apply ulpop_vstack].
+Qed.
+
+Lemma vpop_fields : forall p, up_cur (v_pop p) = up_cur p /\ up_stack (v_pop p) = up_stack p /\
+  up_marker (v_pop p) = up_marker p /\ up_buf (v_pop p) = up_buf p.
+Proof. intro p. unfold v_pop. destruct (up_vstack p); repeat split; reflexivity. Qed.
+
+Lemma ext3_upop_len_v : forall p, forallb (fun st => st_in st stack_states) (up_stack p) = true -> ext3b p = true -> (u_t (up_cur p) =? 1) = false ->
+  up_marker p = 0 -> up_buf p = [] -> Tz (up_cur p) = 1 -> pop_concl p (u_pop (ul_pop (v_pop p))).
+Proof.
+  intros p Hi He Hn Hm Hb Ht. destruct (vpop_fields p) as (V1 & V2 & V3 & V4).
+  apply ext3_upop_gen; auto.
+  - rewrite ulpop_cur. exact V1. - rewrite ulpop_stack. exact V2.
+  - rewrite <- V3 in Hm. unfold ul_pop. destruct (up_lstack (v_pop p)); destruct (v_pop p); exact Hm.
+  - rewrite <- V4 in Hb. unfold ul_pop. destruct (up_lstack (v_pop p)); destruct (v_pop p); exact Hb.
+  - right. split; [exact Ht|]. split; [apply ulpop_vcur|apply ulpop_vstack].
+Qed.
+
+Lemma ext3_push : forall p st, ext3b p = true -> st_in (up_cur p) stack_states = true ->
+  up_marker p = 0 -> up_buf p = [] -> st_in st vstates = true -> nonfail st = true -> nzst st = true ->
+  ext3b (u_push p st) = true /\ typed0 st = false /\
+  (forall n, phi (u_push p st) n <= 4 * n + sumv (up_stack p) + vt (up_cur p) + 1).
+Proof.
+  intros p st He Hc Hm Hb Hst Hnf Hnz.
+  destruct (ext3_split _ He) as (E1 & E2 & E3 & E4).
+  destruct (stack_state_facts _ Hc) as (F1 & F2 & F3 & F4 & F5 & F6).
+  destruct (vstate_facts _ Hst) as (G1 & G2 & G3 & G4).
+  dp p. cbn [up_cur up_stack up_vcur up_vstack up_lcur up_marker up_buf] in *. subst.
+  unfold u_push. cbn [up_cur up_stack up_vcur up_vstack up_lcur up_marker up_buf].
+  unfold nonfail in F3. apply negb_true_iff in F3. change (u_t c =? tFail) with (u_t c =? 0). rewrite F3.
+  split; [|split; [exact G3|]].
+  2:{ intro n. unfold phi. cbn [up_stack up_cur sumv]. lia. }
+  apply ext3_join; cbn [up_cur up_stack up_vcur up_vstack up_lcur up_marker up_buf].
+  - unfold chain_f in *. rewrite G4. unfold nonfail in Hnf. rewrite Hnf. cbn [andb stk_ok].
+    destruct (u_t c =? 1).
+    + destruct k; [reflexivity|discriminate E1].
+    + rewrite F3 in E1. cbn [negb andb] in E1. destruct k; [discriminate E1|]. cbn [negb andb]. exact E1.
+  - unfold vbal_f in *. cbn [tcount]. rewrite G2.
+    apply andb_true_iff in E2. destruct E2 as [E2 E2c]. rewrite E2. cbn [andb]. lia.
+  - unfold nz_f in *. apply andb_true_iff in E3. destruct E3 as [E3 E3c]. apply andb_true_iff in E3. destruct E3 as [E3a E3b].
+    rewrite Hnz, E3b, E3c. reflexivity.
+  - apply bm_clean.
+Qed.
+
+(* stepValue again, with the consumed byte *)
+Lemma ustep_value_spec3 : forall p s x r,
+  exists p1 s1 rest d err, ustep_value p s (x :: r) = UR p1 s1 rest d err /\
+    (unil err = true -> rest = r /\
+       (p1 = p \/ exists st, st_in st fresh_states = true /\ p1 = u_push p st /\ d = false)).
+Proof.
+  intros p s x r. unfold ustep_value.
+  destruct (marker_state x) as [st|] eqn:Em.
+  2:{ eexists _, _, _, _, _. split; [reflexivity|]. intro H; discriminate H. }
+  assert (Hst : st_in st ((2,1) :: (2,2) :: (2,3) :: (2,4) :: fresh_states) = true).
+  { unfold marker_state in Em.
+    repeat match type of Em with (if ?c then _ else _) = _ => destruct c end;
+    try discriminate Em; injection Em as <-; reflexivity. }
+  destruct (u_s st =? sNil) eqn:E1.
+  { destruct (uvis s (EVal SNil)) as [s1 e]. eexists _, _, _, _, _. split; [reflexivity|]. intros _. split; [reflexivity|left; reflexivity]. }
+  destruct (u_s st =? sNoop) eqn:E2.
+  { eexists _, _, _, _, _. split; [reflexivity|]. intros _. split; [reflexivity|left; reflexivity]. }
+  destruct (u_s st =? sTrue) eqn:E3.
+  { destruct (uvis s (EVal (SBool true))) as [s1 e]. eexists _, _, _, _, _. split; [reflexivity|]. intros _. split; [reflexivity|left; reflexivity]. }
+  destruct (u_s st =? sFalse) eqn:E4.
+  { destruct (uvis s (EVal (SBool false))) as [s1 e]. eexists _, _, _, _, _. split; [reflexivity|]. intros _. split; [reflexivity|left; reflexivity]. }
+  eexists _, _, _, _, _. split; [reflexivity|]. intros _. split; [reflexivity|]. right. exists st. split; [|split; reflexivity].
+  apply st_in_In in Hst. unfold sNil, sNoop, sTrue, sFalse in *.
+  cbn [In fresh_states] in Hst.
+  repeat (destruct Hst as [Hst|Hst]; [injection Hst as Ht Hs; destruct st as [t0 s0]; cbn [u_t u_s] in *; subst; try discriminate; reflexivity|]).
+  contradiction.
+Qed.
+
+Lemma fresh_nz : forall st, st_in st fresh_states = true -> nonfail st = true /\ nzst st = true.
+Proof.
+  intros [t s] H. apply st_in_In in H. cbn in H.
+  repeat (destruct H as [H|H]; [injection H as <- <-; split; reflexivity|]). contradiction.
+Qed.
+
+(* ---------- suffixes ---------- *)
+Lemma sfx_refl : forall b : bytes, suffix_of b b. Proof. intro b; exists []; reflexivity. Qed.
+Lemma sfx_tl : forall (x : Z) r, suffix_of (x :: r) r. Proof. intros x r; exists [x]; reflexivity. Qed.
+Lemma sfx_nil : forall b : bytes, suffix_of b []. Proof. intro b; exists b; rewrite app_nil_r; reflexivity. Qed.
+Lemma sfx_trans : forall a b c : bytes, suffix_of a b -> suffix_of b c -> suffix_of a c.
+Proof. intros a b c [p1 ->] [p2 ->]. exists (p1 ++ p2). rewrite app_assoc. reflexivity. Qed.
+Lemma sfx_len : forall b rest : bytes, suffix_of b rest -> zlen rest <= zlen b.
+Proof. intros b rest [pre ->]. rewrite zlen_app. pose proof (zlen_nonneg _ pre). lia. Qed.
+
+Lemma app_len_lt : forall pre rest : bytes, pre <> [] -> zlen rest < zlen (pre ++ rest).
+Proof. intros [|x pre] rest H; [congruence|]. rewrite zlen_app, zlen_cons. pose proof (zlen_nonneg _ pre). lia. Qed.
+
+Lemma ucollect_s3 : forall p b c, 0 < c -> zlen (up_buf p) < c ->
+  (exists rest tmp, ucollect p b c = UC (uset_buf p []) rest (Some tmp) /\ suffix_of b rest /\ zlen rest < zlen b) \/
+  (ucollect p b c = UC (uset_buf p (up_buf p ++ b)) [] None /\ zlen (up_buf p ++ b) < c).
+Proof.
+  intros p b c Hc Hb. destruct (ucollect_strong p b c Hc Hb) as [(pre & rest & tmp & E & -> & Hne)|H]; [left|right; exact H].
+  exists rest, tmp. split; [exact E|]. split; [exists pre; reflexivity|apply app_len_lt; exact Hne].
+Qed.
+
+Definition len_out4 (p : uparser) (b : bytes) (cont : ustate) (p1 : uparser) (rest : bytes) : Prop :=
+  (exists buf m, p1 = uset_marker (uset_buf p buf) m /\ rest = [] /\ lenbm m buf = true /\ m <> 0) \/
+  (exists L, 0 <= L /\ p1 = ul_push (uset_cur (uset_marker (uset_buf p []) 0) cont) L /\ suffix_of b rest /\ zlen rest < zlen b).
+
+Lemma ustep_len_s3 : forall p b cont, b <> [] -> lenbm (up_marker p) (up_buf p) = true ->
+  exists p1 rest err, ustep_len p b cont = UL p1 rest err /\ (unil err = true -> len_out4 p b cont p1 rest).
+Proof.
+  intros p b cont Hb Hbm. destruct (ustep_len_strong p b cont Hb Hbm) as (p1 & rest & err & E & Ho).
+  exists p1, rest, err. split; [exact E|]. intro Hu. destruct (Ho Hu) as [H|(L & pre & HL & -> & -> & Hne)]; [left; exact H|right].
+  exists L. split; [exact HL|]. split; [reflexivity|]. split; [exists pre; reflexivity|apply app_len_lt; exact Hne].
+Qed.
+
+(* ---------- the guard, locally ---------- *)
+Definition is_zt (y : Z) : bool := (y =? 90) || (y =? 84) || (y =? 70).
+Definition headok (b : bytes) : bool := match b with y :: _ => negb (is_zt y) | [] => true end.
+
+Lemma marker_state_nz : forall m st, marker_state m = Some st -> is_zt m = false -> (m =? mN) = false ->
+  nzst st = true /\ nonfail st = true.
+Proof.
+  intros m st Em Hz Hn. unfold marker_state in Em. unfold is_zt in Hz.
+  unfold mZ, mN, mT, mF, mi, mU, mI, ml, mL, md, mD, mH, mC, mS, mObjS, mArrS in *.
+  repeat match type of Em with (if ?c then _ else _) = _ => destruct c eqn:? end;
+    try discriminate Em; try lia; injection Em as <-; split; reflexivity.
+Qed.
+
+Definition post3 (p : uparser) (b : bytes) (r : ures) : Prop :=
+  match r with
+  | UCrash _ => False
+  | UR p1 s1 rest d err => unil err = true ->
+      ext3b p1 = true /\
+      suffix_of b rest /\
+      (typed0 (up_cur p1) = true -> exists pre', b = pre' ++ 36 :: rest) /\
+      phi p1 (zlen rest) < phi p (zlen b) /\
+      (d = true -> up_stack p1 = []) /\
+      ((u_t (up_cur p) =? 1) = true -> zlen rest < zlen b)
+  end.
+
+Lemma post3_latch : forall p b r, post3 p b r -> post3 p b (latch r).
+Proof.
+  intros p b [p1 s rest d err|w] H; cbn [latch]; [|exact H].
+  destruct (unil err) eqn:E; [exact H|]. cbn [post3]. intro H1. congruence.
+Qed.
+Lemma post3_nodone : forall p b r, post3 p b r -> post3 p b (value_nodone r).
+Proof.
+  intros p b [p1 s rest d err|w] H; [|exact H]. cbn [value_nodone post3] in *. intro Hu.
+  destruct (H Hu) as (A & B & C & D & E & F). repeat split; try assumption. intro X; discriminate X.
+Qed.
+
+Lemma post3_mono : forall p p' b r, (forall n, phi p' n <= phi p n) -> (u_t (up_cur p) =? 1) = false ->
+  post3 p' b r -> post3 p b r.
+Proof.
+  intros p p' b [p1 s rest d err|w] Hphi Hn H; [|exact H]. cbn [post3] in *. intro Hu.
+  destruct (H Hu) as (A & B & C & D & E & F). repeat split; try assumption.
+  - pose proof (Hphi (zlen b)). lia.
+  - rewrite Hn. intro X; discriminate X.
+Qed.
+
+Lemma vdepth_pos : forall vc vs, 0 < vdepth vc vs -> nonfail vc = true.
+Proof. intros vc vs H. unfold vdepth, nonfail in *. destruct (u_t vc =? 0); [lia|reflexivity]. Qed.
+
+Opaque ustep_len ucollect ustep_value uvis wraps be_dec marker_state marker_btype.
+
+Ltac norm3 := cbv [uset_buf uset_cur uset_marker uset_lcur uset_step uset_type uset_err ul_push v_push with_step mku];
+  cbn -[Z.sub zlen u_push vdepth typed0 phi ext3b].
+
+Ltac side3 := first
+  [ discriminate | congruence | assumption
+  | (cbn -[Z.sub zlen]; unfold lenbm, mi, mU, mI, ml, mL; change (zlen (@nil Z)) with 0; lia) ].
+
+Ltac crunch3 :=
+  repeat first
+  [ progress norm3
+  | match goal with
+    | |- context[uvis ?s ?e] => destruct (uvis s e) as [? ?]
+    | |- context[ustep_value ?p ?s (?x :: ?r)] =>
+        let E := fresh "E" in let Ho := fresh "Ho" in let Hu := fresh "Hu" in
+        let st := fresh "st" in let Hst := fresh "Hst" in let err := fresh "err" in
+        destruct (ustep_value_spec3 p s x r) as (? & ? & ? & ? & err & E & Ho); rewrite E; clear E;
+        destruct (unil err) eqn:Hu;
+        [ specialize (Ho eq_refl); destruct Ho as [-> [->|(st & Hst & -> & ->)]] | clear Ho ]
+    | |- context[ustep_len ?p ?b ?c] =>
+        let E := fresh "E" in let Ho := fresh "Ho" in let Hu := fresh "Hu" in let err := fresh "err" in
+        let HL := fresh "HL" in let Hs := fresh "Hsfx" in let Hz := fresh "Hzl" in let Hlb := fresh "Hlb" in let Hm := fresh "Hm" in
+        destruct (ustep_len_s3 p b c) as (? & ? & err & E & Ho); [side3|side3|]; rewrite E; clear E;
+        destruct (unil err) eqn:Hu;
+        [ specialize (Ho eq_refl); destruct Ho as [(? & ? & -> & -> & Hlb & Hm)|(? & HL & -> & Hs & Hz)]; [unfold lenbm, mi, mU, mI, ml, mL in Hlb|] | clear Ho ]
+    | |- context[ucollect ?p ?b ?c] =>
+        let E := fresh "E" in let Hs := fresh "Hsfx" in let Hz := fresh "Hzl" in let Hlt := fresh "Hlt" in
+        destruct (ucollect_s3 p b c) as [(? & ? & E & Hs & Hz)|(E & Hlt)]; [side3|side3| |]; rewrite E; clear E;
+        try (cbv [uset_buf uset_cur uset_marker uset_lcur uset_step uset_type uset_err ul_push v_push with_step mku] in Hlt; cbn [up_buf app] in Hlt)
+    | |- context[match marker_state ?m with _ => _ end] => destruct (marker_state m) eqn:?
+    | |- context[if ?c then _ else _] => destruct c eqn:?
+    end ].
+
+
+Lemma ulpop_marker : forall p, up_marker (ul_pop p) = up_marker p.
+Proof. intro p. unfold ul_pop. destruct (up_lstack p); reflexivity. Qed.
+Lemma ulpop_buf : forall p, up_buf (ul_pop p) = up_buf p.
+Proof. intro p. unfold ul_pop. destruct (up_lstack p); reflexivity. Qed.
+Ltac flds := rewrite ?ulpop_cur, ?ulpop_stack, ?ulpop_vcur, ?ulpop_vstack, ?ulpop_marker, ?ulpop_buf;
+  cbn [up_cur up_stack up_vcur up_vstack up_lcur up_marker up_buf].
+
+Ltac ext3_plain E1 E2a E2b E2c E3b E3c :=
+  apply ext3_join; flds;
+  [ cbn -[zlen]; rewrite ?E1; reflexivity
+  | unfold vbal_f; cbn -[zlen vdepth Z.add]; rewrite ?E2a, ?E2b; cbn [andb]; first [ assumption | lia ]
+  | unfold nz_f; rewrite ?E3b, ?E3c; reflexivity
+  | unfold bm; cbn -[zlen]; unfold lenbm, mi, mU, mI, ml, mL; change (zlen (@nil Z)) with 0; lia ].
+
+Ltac side_mk := flds; first [ reflexivity | lia ].
+Ltac side_buf := flds; first [ reflexivity | (apply zlen_nil_iff; lia) ].
+
+Lemma upush_cur : forall p st, up_cur (u_push p st) = st.
+Proof. reflexivity. Qed.
+
+Ltac rest5 Q2 Q3 :=
+  split; [ eauto using sfx_refl, sfx_tl, sfx_nil, sfx_trans
+  | split; [ rewrite ?upush_cur;
+             first [ rewrite Q2; (let X := fresh "X" in intro X; discriminate X)
+                   | cbn; (let X := fresh "X" in intro X; discriminate X)
+                   | (intros _; exists (@nil Z); cbn [app]; f_equal; unfold mType in *; lia) ]
+  | split; [ try (match goal with |- phi ?A ?n < _ =>
+                    let Q := fresh "Q" in pose proof (Q3 n) as Q;
+                    revert Q; generalize (phi A n); intros ? Q;
+                    cbn -[zlen Z.mul phi] in Q; change (zlen (@nil Z)) with 0 in Q end);
+             unfold phi; rewrite ?ulpop_cur, ?ulpop_stack; cbn -[zlen Z.mul]; change (zlen (@nil Z)) with 0; lia
+  | split; [ (let Hd := fresh "Hd" in intro Hd; first [ reflexivity | discriminate Hd | (apply zlen_nil_iff; exact Hd) ])
+  | cbn -[zlen]; first [ (let X := fresh "X" in intro X; discriminate X) | (intros _; change (zlen (@nil Z)) with 0; lia) ] ] ] ] ].
+
+Ltac push_leaf H4 E1 E2a E2b E2c E3b E3c :=
+  let Q1 := fresh "Q" in let Q2 := fresh "Q" in let Q3 := fresh "Q" in
+  match goal with
+  | Hst : st_in ?st fresh_states = true |- ext3b (u_push ?P ?st) = true /\ _ =>
+      destruct (ext3_push P st) as (Q1 & Q2 & Q3);
+      [ ext3_plain E1 E2a E2b E2c E3b E3c | reflexivity | side_mk | side_buf
+      | apply fresh_vstate; exact Hst | apply (fresh_nz _ Hst) | apply (fresh_nz _ Hst)
+      | split; [exact Q1 | rest5 Q2 Q3 ] ]
+  end.
+
+Ltac pop_leaf H2 E1 E2a E2b E2c E3b E3c :=
+  let Q1 := fresh "Q" in let Q2 := fresh "Q" in let Q3 := fresh "Q" in
+  match goal with
+  | |- ext3b (u_pop (ul_pop (v_pop ?P))) = true /\ _ =>
+      destruct (ext3_upop_len_v P) as (Q1 & Q2 & Q3);
+      [ flds; exact H2 | ext3_plain E1 E2a E2b E2c E3b E3c | reflexivity | side_mk | side_buf | reflexivity
+      | split; [exact Q1 | rest5 Q2 Q3 ] ]
+  | |- ext3b (u_pop (ul_pop ?P)) = true /\ _ =>
+      destruct (ext3_upop_len P) as (Q1 & Q2 & Q3);
+      [ flds; exact H2 | ext3_plain E1 E2a E2b E2c E3b E3c | reflexivity | side_mk | side_buf | reflexivity
+      | split; [exact Q1 | rest5 Q2 Q3 ] ]
+  | |- ext3b (u_pop ?P) = true /\ _ =>
+      destruct (ext3_upop P) as (Q1 & Q2 & Q3);
+      [ flds; exact H2 | ext3_plain E1 E2a E2b E2c E3b E3c | reflexivity | side_mk | side_buf | reflexivity
+      | split; [exact Q1 | rest5 Q2 Q3 ] ]
+  end.
+
+
+Ltac vc_nonfail E2c Htnn :=
+  apply (vdepth_pos _ _ : forall vc vs, _); fail.
+
+Ltac push_vc_leaf H4 E1 E2a E2b E2c E3b E3c Hnf :=
+  let Q1 := fresh "Q" in let Q2 := fresh "Q" in let Q3 := fresh "Q" in
+  match goal with
+  | |- ext3b (u_push ?P ?vc) = true /\ _ =>
+      destruct (ext3_push P vc) as (Q1 & Q2 & Q3);
+      [ ext3_plain E1 E2a E2b E2c E3b E3c | reflexivity | side_mk | side_buf
+      | exact H4 | exact Hnf | exact E3b
+      | split; [exact Q1 | rest5 Q2 Q3 ] ]
+  end.
+
+
+Ltac at_leaf Hrec Hr H2 H4 H5 V3 E1 E2a E2b E2c E3b E3c Hnf :=
+  first
+  [ (exfalso; unfold nzst in E3b; apply negb_true_iff in E3b; rewrite E3b in Hr; cbn in Hr; discriminate Hr)
+  | (apply post3_nodone;
+     match goal with |- post3 _ _ (_ (u_push ?P ?vc) _ _) =>
+       let Q1 := fresh "Q" in let Q2 := fresh "Q" in let Q3 := fresh "Q" in
+       destruct (ext3_push P vc) as (Q1 & Q2 & Q3);
+       [ ext3_plain E1 E2a E2b E2c E3b E3c | reflexivity | side_mk | side_buf | exact H4 | exact Hnf | exact E3b | ];
+       apply (post3_mono _ (u_push P vc));
+       [ (let n := fresh "n" in intro n; specialize (Q3 n); revert Q3; generalize (phi (u_push P vc) n); intros ? Q3;
+          cbn -[zlen Z.mul phi] in Q3; unfold phi; cbn -[zlen Z.mul]; lia)
+       | reflexivity
+       | apply Hrec;
+         [ reflexivity
+         | apply inv1b_push; [ inv_leaf H2 H4 H5 | reflexivity | exact H4 ]
+         | exact Q1
+         | rewrite upush_cur; exact V3
+         | left; discriminate
+         | rewrite upush_cur; exact Q2 ] ]
+     end) ].
+
+
+Ltac vpush_leaf Hh E1 E2a E2b E2c E3b E3c :=
+  match goal with
+  | Hm : marker_state ?x = Some ?u, Hn : (?x =? mN) = false, Hf : (u_t ?vc =? tFail) = _ |- _ =>
+      let Hz := fresh "Hz" in let Unz := fresh "Unz" in let Unf := fresh "Unf" in
+      assert (Hz : is_zt x = false) by (apply negb_true_iff; apply Hh; reflexivity);
+      destruct (marker_state_nz x u Hm Hz Hn) as [Unz Unf];
+      split;
+      [ apply ext3_join; flds;
+        [ cbn -[zlen]; rewrite ?E1; reflexivity
+        | unfold vbal_f, vdepth, nonfail in *; cbn -[zlen Z.add]; unfold tFail in *;
+          apply negb_true_iff in Unf; rewrite ?Unf; rewrite Hf in *; rewrite ?zlen_cons; cbn [forallb negb andb orb] in *;
+          rewrite ?E2a; cbn [forallb negb andb orb]; lia
+        | unfold nz_f; cbn [forallb]; rewrite ?Unz, ?E3b, ?E3c; reflexivity
+        | unfold bm; cbn -[zlen]; unfold lenbm, mi, mU, mI, ml, mL; change (zlen (@nil Z)) with 0; lia ]
+      | rest5 E1 E1 ]
+  end.
+
+Lemma ubody0_step3 : forall rec p s b, inv1b p = true -> ext3b p = true -> ready p b ->
+  (typed0 (up_cur p) = true -> headok b = true) ->
+  (u_t (up_cur p) = tArrayTyped -> forall p' s', inv1b p' = true -> ext3b p' = true -> u_t (up_cur p') <> tArrayTyped ->
+      ready p' b -> typed0 (up_cur p') = false -> post3 p' b (rec p' s' b)) ->
+  post3 p b (ubody0 rec p s b).
+Proof.
+  intros rec p s b Hi He Hr Hh Hrec.
+  destruct (inv1b_split _ Hi) as (H1 & H2 & H3 & H4 & H5).
+  destruct (ext3_split _ He) as (E1 & E2 & E3 & E4).
+  destruct p as [[t st] stk vc vs lc ls buf mk vt er].
+  cbn [up_cur up_stack up_vcur up_vstack up_lcur up_marker up_buf] in H1, H2, H3, H4, H5, E1, E2, E3, E4, Hh.
+  destruct (vstate_cur _ H4) as (V1 & V2 & V3).
+  unfold vbal_f in E2. apply andb_true_iff in E2. destruct E2 as [E2 E2c]. apply andb_true_iff in E2. destruct E2 as [E2a E2b].
+  unfold nz_f in E3. apply andb_true_iff in E3. destruct E3 as [E3 E3c]. apply andb_true_iff in E3. destruct E3 as [E3a E3b].
+  apply st_in_In in H1. cbn in H1.
+  repeat (destruct H1 as [H1|H1]; [injection H1 as <- <-|]); try contradiction.
+  all: try discriminate E1; try discriminate E3a.
+  all: cbn -[zlen] in E1.
+  all: try match type of E1 with (match ?l with [] => _ | _ => _ end) = true => destruct l; [|discriminate E1] end.
+  all: cbn in H3; cbn -[zlen vdepth Z.add] in E2c; unfold bm in E4; cbn -[zlen] in E4; unfold lenbm, mi, mU, mI, ml, mL in E4; cbn in Hh.
+  all: destruct b as [|x r]; [ destruct Hr as [Hr|Hr]; [congruence|]; try (discriminate Hr); cbn in Hr
+                            | pose proof (zlen_cons _ x r) as Hzc; pose proof (zlen_nonneg _ r) as Hznn ].
+  all: unfold ubody0.
+  all: norm3.
+  all: crunch3.
+  all: try contradiction.
+  all: try solve [exfalso; congruence].
+  all: try (intro Hu'; try congruence; try (rewrite Hu' in *; discriminate)).
+  all: clear Hi He.
+  all: rewrite ?ulpop_cur, ?ulpop_stack, ?ulpop_vcur, ?ulpop_vstack, ?ulpop_marker, ?ulpop_buf; norm3.
+  all: pose proof (zlen_nonneg _ buf) as Hbnn; pose proof (zlen_nonneg _ vs) as Hvnn; try (match type of E1 with stk_ok ?k = true => pose proof (tcount_nonneg k) as Htnn end).
+  all: try solve [ split; [ ext3_plain E1 E2a E2b E2c E3b E3c | rest5 E1 E1 ] ].
+  all: try solve [ pop_leaf H2 E1 E2a E2b E2c E3b E3c ].
+  all: try solve [ push_leaf H4 E1 E2a E2b E2c E3b E3c ].
+  all: try (assert (Hnf : nonfail vc = true) by (apply (vdepth_pos vc vs); lia)).
+  all: try solve [ push_vc_leaf H4 E1 E2a E2b E2c E3b E3c Hnf ].
+  3-6: at_leaf Hrec Hr H2 H4 H5 V3 E1 E2a E2b E2c E3b E3c Hnf.
+  all: vpush_leaf Hh E1 E2a E2b E2c E3b E3c.
+Qed.
+
+Transparent ustep_len ucollect ustep_value uvis wraps be_dec marker_state marker_btype.
+
+
+(* ---------- uexec_step ---------- *)
+Lemma ubody_step3 : forall rec p s b, inv1b p = true -> ext3b p = true -> ready p b ->
+  (typed0 (up_cur p) = true -> headok b = true) ->
+  (u_t (up_cur p) = tArrayTyped -> forall p' s', inv1b p' = true -> ext3b p' = true -> u_t (up_cur p') <> tArrayTyped ->
+      ready p' b -> typed0 (up_cur p') = false -> post3 p' b (rec p' s' b)) ->
+  post3 p b (ubody rec p s b).
+Proof. intros. unfold ubody. apply post3_latch. apply ubody0_step3; assumption. Qed.
+
+Lemma uexec_step3 : forall p s b, inv1b p = true -> ext3b p = true -> ready p b ->
+  (typed0 (up_cur p) = true -> headok b = true) -> post3 p b (uexec_step p s b).
+Proof.
+  intros p s b Hi He Hr Hh. unfold uexec_step. rewrite uexec_S. apply ubody_step3; try assumption.
+  intros _ p' s' Hi' He' Ht' Hr' Hty'. rewrite uexec_S. apply ubody_step3; try assumption.
+  - rewrite Hty'. intro X; discriminate X.
+  - intro X; contradiction.
+Qed.
+
+(* ---------- the guard ---------- *)
+Fixpoint no_zero_typed (l : bytes) : bool :=
+  match l with
+  | [] => true
+  | x :: r => (negb (x =? 36) || headok r) && no_zero_typed r
+  end.
+
+Lemma nzt_app_r : forall a b, no_zero_typed (a ++ b) = true -> no_zero_typed b = true.
+Proof.
+  induction a as [|x a IH]; intros b H; [exact H|]. cbn [app no_zero_typed] in H.
+  apply andb_true_iff in H. destruct H as [_ H]. apply IH. exact H.
+Qed.
+Lemma nzt_head : forall a b, no_zero_typed (a ++ 36 :: b) = true -> headok b = true.
+Proof.
+  intros a b H. apply nzt_app_r in H. cbn [no_zero_typed] in H. apply andb_true_iff in H. destruct H as [H _].
+  cbn in H. exact H.
+Qed.
+
+Lemma typed0_no_step : forall p, typed0 (up_cur p) = true -> can_step_without_input p = false.
+Proof.
+  intros p H. dp p. destruct c as [t s]. cbn [up_cur] in H. apply st_in_In in H. cbn in H.
+  destruct H as [H|[H|H]]; try contradiction; injection H as <- <-; reflexivity.
+Qed.
+
+Definition guard (p : uparser) (f : bytes) : Prop :=
+  no_zero_typed f = true /\ (typed0 (up_cur p) = true -> headok f = true).
+
+Lemma phi_fuel : forall p b, phi p (zlen b) < Z.of_nat (ufeed_fuel p b).
+Proof.
+  intros p b. unfold phi, ufeed_fuel. pose proof (sumv_bounds (up_stack p)). pose proof (wt_bounds (up_cur p)).
+  unfold zlen in *. lia.
+Qed.
+
+Definition fu_ok (p : uparser) (b fut : bytes) (p1 : uparser) (rest : bytes) (d : bool) : Prop :=
+  inv1b p1 = true /\ ext3b p1 = true /\ suffix_of b rest /\ guard p1 (rest ++ fut) /\
+  (d = true -> up_stack p1 = []) /\ (d = false -> rest = []) /\
+  ((u_t (up_cur p) =? 1) = true -> zlen rest < zlen b).
+
+Lemma ufeed_until_total : forall fuel p s b fut, inv1b p = true -> ext3b p = true -> ready p b ->
+  guard p (b ++ fut) -> phi p (zlen b) < Z.of_nat fuel ->
+  exists p1 s1 rest d err, ufeed_until fuel p s b = Ok (UR p1 s1 rest d err) /\
+    (unil err = true -> fu_ok p b fut p1 rest d).
+Proof.
+  induction fuel as [|f IH]; intros p s b fut Hi He Hr [Hg1 Hg2] Hf.
+  { exfalso. unfold phi in Hf. pose proof (sumv_bounds (up_stack p)). pose proof (wt_bounds (up_cur p)).
+    pose proof (zlen_nonneg _ b). lia. }
+  cbn [ufeed_until].
+  assert (Hh : typed0 (up_cur p) = true -> headok b = true).
+  { intro Ht. specialize (Hg2 Ht). destruct Hr as [Hr|Hr].
+    - destruct b; [congruence|exact Hg2].
+    - rewrite (typed0_no_step p Ht) in Hr. discriminate Hr. }
+  pose proof (uexec_step3 p s b Hi He Hr Hh) as H3.
+  pose proof (uexec_step_safe1 p s b Hi Hr) as H1.
+  destruct (uexec_step p s b) as [p1 s1 rest d err|w]; [|contradiction].
+  cbn [post3 post1] in H3, H1.
+  assert (Hok : unil err = true -> fu_ok p b fut p1 rest d -> fu_ok p b fut p1 rest d) by auto.
+  assert (Hbase : unil err = true -> inv1b p1 = true /\ ext3b p1 = true /\ suffix_of b rest /\ guard p1 (rest ++ fut) /\
+            (d = true -> up_stack p1 = []) /\ ((u_t (up_cur p) =? 1) = true -> zlen rest < zlen b) /\
+            phi p1 (zlen rest) < phi p (zlen b)).
+  { intro Hu. destruct (H3 Hu) as (A & B & C & D & E & F). specialize (H1 Hu).
+    repeat split; try assumption.
+    - destruct B as [pre ->]. rewrite <- app_assoc in Hg1. apply nzt_app_r in Hg1. exact Hg1.
+    - intro Ht. destruct (C Ht) as [pre' ->]. rewrite <- app_assoc in Hg1. cbn [app] in Hg1.
+      apply nzt_head in Hg1. exact Hg1. }
+  destruct (d || negb (unil err)) eqn:E1.
+  { eexists _, _, _, _, _. split; [reflexivity|]. intro Hu. rewrite Hu in E1. cbn in E1. rewrite orb_false_r in E1. subst d.
+    destruct (Hbase Hu) as (A & B & C & D & E & F & G). unfold fu_ok. repeat (split; [assumption|]).
+    split; [intro X; discriminate X|assumption]. }
+  apply orb_false_iff in E1. destruct E1 as [Ed Eu]. apply negb_false_iff in Eu. subst d.
+  destruct (Hbase Eu) as (A & B & C & D & E & F & G).
+  destruct ((zlen rest =? 0) && negb (can_step_without_input p1)) eqn:E2.
+  { eexists _, _, _, _, _. split; [reflexivity|]. intros _.
+    unfold fu_ok. repeat (split; [assumption|]). split; [|assumption].
+    intros _. apply andb_true_iff in E2. destruct E2 as [E2 _]. apply zlen_nil_iff. exact E2. }
+  assert (Hr1 : ready p1 rest).
+  { apply andb_false_iff in E2. destruct E2 as [E2|E2].
+    - left. intros ->. discriminate E2.
+    - right. apply negb_false_iff in E2. exact E2. }
+  destruct (IH p1 s1 rest fut A B Hr1 D) as (p2 & s2 & rest2 & d2 & err2 & Eq & Hfin); [lia|].
+  exists p2, s2, rest2, d2, err2. split; [exact Eq|]. intro Hu2.
+  destruct (Hfin Hu2) as (A2 & B2 & C2 & D2 & E2' & F2 & G2).
+  unfold fu_ok. split; [assumption|]. split; [assumption|]. split; [eapply sfx_trans; eassumption|].
+  split; [assumption|]. split; [assumption|]. split; [assumption|].
+  intro Hn. specialize (F Hn). pose proof (sfx_len _ _ C2). lia.
+Qed.
+
+Lemma chain_nil_next : forall p, ext3b p = true -> up_stack p = [] -> (u_t (up_cur p) =? 1) = true.
+Proof.
+  intros p He Hs. destruct (ext3_split _ He) as (E1 & _). rewrite Hs in E1. unfold chain_f in E1.
+  destruct (u_t (up_cur p) =? 1); [reflexivity|]. rewrite andb_false_r in E1. discriminate E1.
+Qed.
+
+Definition f_ok (fut : bytes) (p1 : uparser) : Prop := inv1b p1 = true /\ ext3b p1 = true /\ guard p1 fut.
+
+Lemma ufeed_total : forall fuel p s b fut, inv1b p = true -> ext3b p = true -> guard p (b ++ fut) ->
+  2 * zlen b + (if u_t (up_cur p) =? 1 then 0 else 1) + 1 <= Z.of_nat fuel ->
+  exists p1 s1 err, ufeed fuel p s b = Ok (p1, s1, err) /\ (unil err = true -> f_ok fut p1).
+Proof.
+  induction fuel as [|f IH]; intros p s b fut Hi He Hg Hf.
+  { exfalso. pose proof (zlen_nonneg _ b). destruct (u_t (up_cur p) =? 1); lia. }
+  cbn [ufeed]. destruct (zlen b >? 0) eqn:Eb.
+  2:{ assert (b = []) by (apply zlen_nil_iff; pose proof (zlen_nonneg _ b); lia). subst b.
+      eexists _, _, _. split; [reflexivity|]. intros _. repeat split; assumption || apply Hg. }
+  assert (Hr : ready p b). { left. intros ->. discriminate Eb. }
+  destruct (ufeed_until_total (ufeed_fuel p b) p s b fut Hi He Hr Hg (phi_fuel p b))
+    as (p1 & s1 & rest & d & err & E & Hfin).
+  rewrite E. destruct (unil err) eqn:Eu.
+  2:{ eexists _, _, _. split; [reflexivity|]. intro X. congruence. }
+  destruct (Hfin eq_refl) as (A & B & C & D & E1 & E2 & E3).
+  destruct d.
+  - specialize (E1 eq_refl). pose proof (chain_nil_next p1 B E1) as Hn1.
+    apply IH; try assumption. rewrite Hn1. pose proof (sfx_len _ _ C).
+    destruct (u_t (up_cur p) =? 1); [specialize (E3 eq_refl)|]; lia.
+  - specialize (E2 eq_refl). subst rest.
+    apply IH; try assumption. change (zlen (@nil Z)) with 0. destruct (u_t (up_cur p1) =? 1); destruct (u_t (up_cur p) =? 1); lia.
+Qed.
+
+Lemma ext3b_set_err : forall p e, ext3b (uset_err p e) = ext3b p.
+Proof. intros p e. dp p. reflexivity. Qed.
+
+Lemma ufeed_fuel_ok : forall p (b : bytes),
+  2 * zlen b + (if u_t (up_cur p) =? 1 then 0 else 1) + 1 <= Z.of_nat (2 * length b + 2).
+Proof. intros p b. unfold zlen. destruct (u_t (up_cur p) =? 1); lia. Qed.
+
+Lemma up_write_total : forall p s b fut, inv1b p = true -> ext3b p = true -> guard p (b ++ fut) ->
+  exists p1 s1 err, up_write p s b = Ok (p1, s1, err) /\ (unil err = true -> f_ok fut p1).
+Proof.
+  intros p s b fut Hi He Hg. unfold up_write.
+  destruct (ufeed_total (2 * length b + 2) p s b fut Hi He Hg (ufeed_fuel_ok p b)) as (p1 & s1 & err & E & Hfin).
+  rewrite E. destruct (unil err) eqn:Eu.
+  - eexists _, _, _. split; [reflexivity|]. intros _. destruct (Hfin eq_refl) as (A & B & C).
+    unfold f_ok. rewrite inv1b_set_err, ext3b_set_err. repeat split; try assumption; dp p1; apply C.
+  - eexists _, _, _. split; [reflexivity|]. intro X. congruence.
+Qed.
+
+Lemma up_writes_total : forall chunks p s, inv1b p = true -> ext3b p = true -> guard p (concat chunks) ->
+  exists p1 s1 err, up_writes p s chunks = Ok (p1, s1, err).
+Proof.
+  induction chunks as [|c r IH]; intros p s Hi He Hg; cbn [up_writes].
+  - destruct (ufin p s) as [[p1 s1] e]. eexists _, _, _. reflexivity.
+  - cbn [concat] in Hg. destruct (up_write_total p s c (concat r) Hi He Hg) as (p1 & s1 & err & E & Hfin).
+    rewrite E. destruct (unil err) eqn:Eu.
+    + destruct (Hfin eq_refl) as (A & B & C). apply IH; assumption.
+    + eexists _, _, _. reflexivity.
+Qed.
+
+Lemma ext3b_init : ext3b uparser0 = true.
+Proof. reflexivity. Qed.
+
+Lemma guard_init : forall f, no_zero_typed f = true -> guard uparser0 f.
+Proof. intros f H. split; [exact H|]. intro X; discriminate X. Qed.
+
+Theorem C03_ubj_chunks_total : forall vfail chunks, forallb all_bytes chunks = true ->
+  no_zero_typed (concat chunks) = true ->
+  exists evs e p, urun_chunks vfail chunks = Ok (evs, e, p).
+Proof.
+  intros vfail chunks _ Hg. unfold urun_chunks.
+  destruct (up_writes_total chunks uparser0 (sink0 vfail) inv1b_init ext3b_init (guard_init _ Hg)) as (p1 & s1 & err & E).
+  rewrite E. eexists _, _, _. reflexivity.
+Qed.
+
+Theorem C03_ubj_parse_total : forall vfail b, all_bytes b = true -> no_zero_typed b = true ->
+  exists evs e p, urun_parse vfail b = Ok (evs, e, p).
+Proof.
+  intros vfail b _ Hg. unfold urun_parse, up_parse.
+  assert (Hg' : guard uparser0 (b ++ [])) by (rewrite app_nil_r; apply guard_init; exact Hg).
+  destruct (ufeed_total (2 * length b + 2) uparser0 (sink0 vfail) b [] inv1b_init ext3b_init Hg' (ufeed_fuel_ok uparser0 b))
+    as (p1 & s1 & err & E & _).
+  rewrite E. destruct (unil err).
+  - destruct (ufin p1 s1) as [[p2 s2] e2]. eexists _, _, _. reflexivity.
+  - eexists _, _, _. reflexivity.
+Qed.
+Print Assumptions C03_ubj_chunks_total.
+Print Assumptions C03_ubj_parse_total.
